@@ -289,3 +289,30 @@ Example C04_history3_nonvacuous :
      Inv (own_hist3 never 8 ex3_ops s3_0 own0 world0) own0 [] w') /\
   run_hist3 never 8 [O3NewInt I8; O3Vals 0]%nat s3_0 [] world0 = Fault FUninit.
 Proof. split; [exact ex3_rules|]. split; [exact ex3_theorem_applies|]. vm_compute. reflexivity. Qed.
+
+(* ------------------------------------------------------------------------------------------ *)
+(* The release path as the C source of this run has it (translator/effects.py renders cbor_decref as
+   five plans: entry and one round of each of its four loops; gen/Gen_effects_ref.v;
+   Bridge_effects_ref.v; HPlansRef_proofs.v): the count goes down by one and the item is released iff
+   it reaches 0; an array releases its elements in storage order, then frees the slot block, then the
+   item — the task order of the model's [release_tasks]. *)
+From CB Require Import HPlansRef HPlansRef_proofs Bridge_effects_ref.
+From CBGen Require Import Gen_effects_ref.
+
+Theorem C04_code_decref_test_followed : forall cc definite e rc ty k nn_child nn_elem nn_value,
+  0 < rc < 2 ^ 64 -> (0 <= ty < 2 ^ 32)%Z ->
+  let p := Gcbor_decref cc (dst_z definite) e (Z.of_N rc) ty k nn_child nn_elem nn_value in
+  HPlans_proofs.fieldN "refcount" p = sub64 rc 1 /\ (releases p = (rc =? 1)).
+Proof. exact code_decref_test_followed. Qed.
+Print Assumptions C04_code_decref_test_followed.
+
+Theorem C04_code_release_array_followed : forall a (indef : bool) data allocated (elems : list addr) cc dst rc ty nn_child nn_value,
+  len elems < 2 ^ 64 -> cc < 2 ^ 64 -> len elems <= cc ->
+  let tok := tokens a data None None (fun k _ => nth_error elems (Z.to_nat k)) in
+  let tasks := release_tasks a (NArr indef data allocated elems) in
+  let G k := Gcbor_decref_loop2 (Z.of_N cc) dst (Z.of_N (len elems)) rc ty (Z.of_N k) nn_child true nn_value in
+  (forall k, k < len elems -> plan_tasks tok (G k) = [nth (N.to_nat k) tasks (TFreeItem a)]) /\
+  plan_tasks tok (G (len elems)) = [TFreeData data; TFreeItem a] /\
+  skipn (List.length elems) tasks = [TFreeData data; TFreeItem a].
+Proof. exact code_release_array_followed. Qed.
+Print Assumptions C04_code_release_array_followed.
